@@ -189,6 +189,9 @@ pub struct Mode {
     /// drop every zero-sized handle right away, also an owned one that embeds an arena value (keeps the
     /// handle indices of an all-borrowed and an all-owned run of one history aligned)
     pub drop_zero_now: bool,
+    /// reopen steps may also ask for a capacity BELOW the cursor stored in the file (outside C05's domain; C15 / C16:
+    /// such an open must be refused, or yield an arena whose cursor lies inside its capacity)
+    pub below_cursor_reopen: bool,
 }
 
 /// panic payload used to abandon an operation that exceeded its step budget
@@ -335,6 +338,9 @@ pub fn ro_flags(o: Options, flags: u8) -> Options {
     if flags & 8 != 0 { o.with_create_new(true) } else { o }
 }
 
+/// the "some earlier owner dirtied this byte" bookkeeping (C08's non-trivial rule) stops here: giant arenas exist
+pub const DIRTIED_MAX: usize = 1 << 22;
+
 pub const OPEN_NAMES: [&str; 8] = [
     "map_mut", "map_copy", "map", "map_copy_read_only",
     "map_mut_with_path_builder", "map_copy_with_path_builder", "map_with_path_builder", "map_copy_read_only_with_path_builder",
@@ -446,7 +452,7 @@ impl<A: Flavor> World<A> {
             freelist: cfg.freelist,
             opno: 0,
             page,
-            dirtied: vec![false; capacity],
+            dirtied: vec![false; capacity.min(DIRTIED_MAX)],
             last_discarded: 0,
             remove_on_drop: false,
             crash: None,
@@ -493,7 +499,7 @@ impl<A: Flavor> World<A> {
             freelist: cfg.freelist,
             opno: 0,
             page: page_size(),
-            dirtied: vec![false; capacity],
+            dirtied: vec![false; capacity.min(DIRTIED_MAX)],
             last_discarded: 0,
             remove_on_drop: false,
             crash: None,
@@ -588,17 +594,9 @@ impl<A: Flavor> World<A> {
     /// memory() with the 4 padding bytes at the end of the in-memory header zeroed: they are struct
     /// padding, whose content the language leaves unspecified
     pub fn mem_comparable(&self) -> Vec<u8> {
-        let mut m = self.mem().to_vec();
-        let a = self.a();
-        if a.unify() {
-            let d = a.data_offset();
-            if d >= 4 && d <= m.len() {
-                for b in &mut m[d - 4..d] {
-                    *b = 0;
-                }
-            }
-        }
-        m
+        // every byte: the header's tail padding used to be masked here as "unspecified" - it is part of memory(), it
+        // goes into files and checksums, and the statement says "the bytes ... are identical" (fix e699a28 / section 10)
+        self.mem().to_vec()
     }
 
     pub fn mem(&self) -> &'static [u8] {
@@ -883,6 +881,19 @@ impl<A: Flavor> World<A> {
                     let i = cands[pick(*h, cands.len())];
                     self.do_dealloc_detached(i)?;
                     res = "ok".into();
+                } else if !cands.is_empty() && self.hs[cands[pick(*h, cands.len())]].obj.is_none() {
+                    // a range handed out before the arena was reopened read-only: giving it back cannot work (the
+                    // allocator state lives in a read-only mapping) and dealloc has no error to return - it must leave
+                    // everything as it is, and above all not crash; the range stays handed out
+                    let hh = &self.hs[cands[pick(*h, cands.len())]];
+                    let (boff, bcap) = (hh.boff, hh.bcap);
+                    let pre = self.snap();
+                    let a = self.a();
+                    guard("dealloc(read-only arena)", "C09", || unsafe { a.dealloc(boff as u32, bcap as u32) })?;
+                    let post = self.snap();
+                    ensure!(pre == post, "C09", "ro-dealloc-changed", "dealloc({boff}, {bcap}) on a read-only arena changed it: {pre:?} -> {post:?}");
+                    self.classes.insert("dealloc-on-read-only");
+                    res = "readonly".into();
                 }
             }
             Op::CloneArena => {
@@ -932,23 +943,33 @@ impl<A: Flavor> World<A> {
                 }
             }
             Op::IncDiscarded { v } => {
-                if !self.ro && self.inc_total + (*v as u64) < (1 << 30) {
+                if !self.ro {
                     let pre = self.snap();
-                    if (pre.discarded as u64) + (*v as u64) < (1 << 31) {
-                        self.inc_total += *v as u64;
-                        guard("increase_discarded", "C20", || self.a().increase_discarded(*v))?;
-                        let post = self.snap();
+                    self.inc_total = self.inc_total.saturating_add(*v as u64);
+                    guard("increase_discarded", "C20", || self.a().increase_discarded(*v))?;
+                    let post = self.snap();
+                    let sum = pre.discarded as u64 + *v as u64;
+                    if sum <= u32::MAX as u64 {
                         let mut e = pre.clone();
-                        e.discarded = pre.discarded + *v;
+                        e.discarded = sum as u32;
                         ensure!(post == e, "C20", "increase-discarded", "increase_discarded({v}): discarded {} -> {} (state {pre:?} -> {post:?})", pre.discarded, post.discarded);
-                        res = "ok".into();
+                    } else {
+                        // the counter is a u32: "raises it by n" cannot hold, "never decreases" must (and nothing else moves)
+                        self.classes.insert("discarded-beyond-u32");
+                        let mut e = pre.clone();
+                        e.discarded = post.discarded;
+                        ensure!(post.discarded >= pre.discarded && post == e, "C20", "discarded-decreased", "increase_discarded({v}) at discarded()={}: counter went to {} (state {pre:?} -> {post:?})", pre.discarded, post.discarded);
                     }
+                    res = "ok".into();
                 }
             }
             Op::Rewind { pos } => {
                 if !self.ro {
                     self.do_rewind(*pos)?;
                     res = "ok".into();
+                } else {
+                    self.do_rewind_ro(*pos)?;
+                    res = "readonly".into();
                 }
             }
             Op::Clear => {
@@ -1371,8 +1392,8 @@ impl<A: Flavor> World<A> {
         if self.freelist == 0 {
             ensure!(added.is_empty(), "C10", "none-has-nodes", "Freelist::None release created a node {added:?}");
             ensure!(
-                post.discarded as u64 == pre.discarded as u64 + bcap as u64,
-                "C20", "none-release-accounting",
+                post.discarded as u64 == (pre.discarded as u64 + bcap as u64).min(u32::MAX as u64),
+                "C13|C20", "none-release-accounting",
                 "Freelist::None: {what} of {bcap} bytes not on top: discarded() {} -> {}", pre.discarded, post.discarded
             );
             self.dead.push((boff, boff + bcap));
@@ -1382,7 +1403,7 @@ impl<A: Flavor> World<A> {
         match added.len() {
             0 => {
                 ensure!(
-                    post.discarded as u64 == pre.discarded as u64 + bcap as u64,
+                    post.discarded as u64 == (pre.discarded as u64 + bcap as u64).min(u32::MAX as u64),
                     "C13|C20", "small-release-accounting",
                     "{what} of {bcap} bytes produced no segment: discarded() {} -> {} (expected +{bcap})", pre.discarded, post.discarded
                 );
@@ -1525,8 +1546,8 @@ impl<A: Flavor> World<A> {
         }
         match r {
             Ok(v) => {
-                ensure!(v as u64 == sum, "C20", "discard-return", "discard_freelist() returned {v}, list held {sum} bytes: {:?}", pre.fl);
-                ensure!(post.discarded as u64 == pre.discarded as u64 + sum, "C20", "discard-accounting", "discard_freelist(): discarded() {} -> {}, list held {sum}", pre.discarded, post.discarded);
+                ensure!(v as u64 == sum.min(u32::MAX as u64), "C20", "discard-return", "discard_freelist() returned {v}, list held {sum} bytes: {:?}", pre.fl);
+                ensure!(post.discarded as u64 == (pre.discarded as u64 + sum).min(u32::MAX as u64), "C20", "discard-accounting", "discard_freelist(): discarded() {} -> {}, list held {sum}", pre.discarded, post.discarded);
                 ensure!(post.fl.is_empty(), "C20", "discard-left-nodes", "discard_freelist() left nodes {:?}", post.fl);
                 ensure!(post.allocated == pre.allocated && post.capacity == pre.capacity && post.minseg == pre.minseg, "C20", "discard-side-effect", "discard_freelist() changed cursor/capacity/min segment size");
                 for n in &pre.fl {
@@ -1623,6 +1644,20 @@ impl<A: Flavor> World<A> {
         Ok(())
     }
 
+    /// `rewind` has no error to return and its safety section does not exclude read-only arenas: on one it can only
+    /// leave everything as it is (the cursor lives in a read-only mapping) - in particular it must not crash
+    fn do_rewind_ro(&mut self, pos: Pos) -> R {
+        let pre = self.snap();
+        let ap = self.to_position(pos, &pre);
+        let a = self.a();
+        let before = crate::runner::fnv(self.mem());
+        guard("rewind(read-only arena)", "C09|C17", || unsafe { a.rewind(ap) })?;
+        let post = self.snap();
+        ensure!(post == pre && crate::runner::fnv(self.mem()) == before, "C09|C17", "rewind-read-only-changed", "rewind({ap:?}) on a read-only arena changed it: {pre:?} -> {post:?}");
+        self.classes.insert("rewind-on-read-only");
+        Ok(())
+    }
+
     fn do_clear(&mut self) -> R {
         self.forget_above(0)?;
         // zero-sized handles that embed clones stay; everything else is gone
@@ -1677,6 +1712,10 @@ impl<A: Flavor> World<A> {
             Size::Rem(d) => (pre.allocated as i64 + d as i64).max(0) as usize,
             Size::Cap(d) => (pre.capacity as i64 + d as i64).max(0) as usize,
             Size::Abs(v) => v as usize,
+            // the upper end of the statement's domain, 4 * capacity - k (above u32::MAX for an arena of 1 GiB or more)
+            Size::MaxMinus(k) => (4 * pre.capacity).saturating_sub(k as usize),
+            // around 2^32
+            Size::Half(d) => ((1i64 << 32) + d as i64) as usize,
             _ => pre.capacity,
         };
         let n = n.min(4 * pre.capacity.max(64));
@@ -1690,6 +1729,16 @@ impl<A: Flavor> World<A> {
             ensure!(r.is_err(), "C18", "truncate-ro", "truncate on a read-only arena succeeded");
             ensure!(pre == post, "C18", "truncate-ro", "truncate on a read-only arena changed state");
             return Ok("readonly".into());
+        }
+        if n.max(pre.allocated) > u32::MAX as usize {
+            // capacity() is a u32: max(n, allocated()) cannot be reported, so the statement cannot be met; what is
+            // demanded instead is the least any caller needs - a refusal that leaves the arena exactly as it was
+            self.classes.insert("truncate-beyond-u32");
+            ensure!(r.is_err(), "C18", "truncate-wrapped", "truncate({n}) on an arena of capacity {} returned Ok: capacity() is now {} (allocated() {})", pre.capacity, post.capacity, post.allocated);
+            ensure!(pre == post, "C18", "truncate-refused-effect", "truncate({n}) failed but changed state: {pre:?} -> {post:?}");
+            let after = &self.mem()[..post.allocated];
+            ensure!(after == &before[..], "C18", "truncate-bytes", "truncate({n}) failed but changed bytes below allocated()");
+            return Ok("refused".into());
         }
         ensure!(r.is_ok(), "C18", "truncate-failed", "truncate({n}) failed: {r:?}");
         let want = n.max(pre.allocated);
@@ -1708,7 +1757,7 @@ impl<A: Flavor> World<A> {
         // "... and nothing else" (the property's title): the rest of the observation tuple
         ensure!(post == e, "C18", "truncate-other-state", "truncate({n}) changed more than the capacity: {pre:?} -> {post:?}");
         self.truncated = true;
-        self.dirtied.resize(want, false);
+        self.dirtied.resize(want.min(DIRTIED_MAX), false);
         if n < pre.capacity {
             self.classes.insert("truncate-shrink");
         } else if n > pre.capacity {
@@ -1780,9 +1829,16 @@ impl<A: Flavor> World<A> {
         let base_cap = file_state.capacity;
         let larger = base_cap + 1 + (self.opno * 37) % 300;
         let o = self.opts.with_read(true).with_offset(off as u64);
-        let o = match capsel % 3 {
-            0 => o.with_capacity(base_cap as u32),
-            1 => o.with_capacity(larger as u32),
+        // capsel 3 (only when the running check asks for it): a capacity below the cursor stored in the file but
+        // large enough for the header - outside C05's domain; the open must be refused, or yield an arena whose cursor
+        // lies inside its capacity (C15: allocated_memory() / the readers stay inside memory(); C16: remaining law)
+        let below = capsel == 3 && self.mode.below_cursor_reopen && file_state.allocated > pre_d + 1;
+        let below_cap = if below { pre_d + (self.opno * 13) % (file_state.allocated - pre_d) } else { 0 };
+        let capsel = if capsel == 3 && !below { 0 } else { capsel };
+        let o = match capsel {
+            3 => o.with_capacity(below_cap as u32),
+            c if c % 3 == 0 => o.with_capacity(base_cap as u32),
+            c if c % 3 == 1 => o.with_capacity(larger as u32),
             _ => o,
         };
         let mode = mode & 3;
@@ -1799,10 +1855,37 @@ impl<A: Flavor> World<A> {
         }
         let what = OPEN_NAMES[mode as usize + 4 * usize::from(pb)];
         let r = guard(what, "C05", || open_variant::<A>(o, mode, pb, &path))?;
+        let before_below = if below { std::fs::read(&path).ok() } else { None };
+        let mut accepted_below = false;
         let arena = match r {
+            Ok(a) if below => {
+                // accepted: then the arena must be consistent
+                let (al, cp, am, dl) = (a.allocated(), a.capacity(), a.allocated_memory().len(), a.data().len());
+                if al > cp || am > cp || dl > cp {
+                    std::mem::forget(a);
+                    return Err(viol!("C15|C16", "reopen-cursor-beyond-capacity", "{what} with capacity {below_cap} below the stored cursor {} was accepted: allocated()={al} capacity()={cp} allocated_memory().len()={am} data().len()={dl} (the slices reach past memory())", file_state.allocated));
+                }
+                accepted_below = true;
+                a
+            }
             Ok(a) => a,
+            Err(_) if below => {
+                // refused, as it should be: nothing in the file may have changed; carry on with a proper reopen
+                self.classes.insert("reopen-below-cursor-refused");
+                let now = std::fs::read(&path).unwrap_or_default();
+                if let Some(b) = &before_below {
+                    ensure!(now.len() >= b.len() && now[..b.len()] == b[..], "C09", "refused-open-altered-file", "{what} with capacity {below_cap} below the stored cursor was refused but changed the file");
+                }
+                let o2 = self.opts.with_read(true).with_offset(off as u64).with_capacity(base_cap as u32);
+                let o2 = if mode >= 2 { ro_flags(o2, flags) } else { o2 };
+                match guard(what, "C05", || open_variant::<A>(o2, mode, pb, &path))? {
+                    Ok(a) => a,
+                    Err(e) => return Err(viol!("C05", "reopen-failed", "{what} of a valid arena file (len {file_len}, mapping offset {off}) failed: {e}")),
+                }
+            }
             Err(e) => return Err(viol!("C05", "reopen-failed", "{what} of a valid arena file (len {file_len}, mapping offset {off}) failed: {e}")),
         };
+        let capsel = if below { 0 } else { capsel };
         self.arenas = vec![Some(Box::new(arena))];
         self.ro = mode >= 2;
         let a = self.a();
@@ -1828,9 +1911,9 @@ impl<A: Flavor> World<A> {
             _ => file_len - off,
         };
         let want_cap = if self.ro { want_cap.min(file_len - off) } else { want_cap };
-        ensure!(post.capacity == want_cap, "C05|C16", "reopen-capacity", "{what} capsel {capsel}: capacity() {} expected {want_cap} (file len {file_len} -> {len_now}, offset {off})", post.capacity);
-        if self.dirtied.len() < post.capacity {
-            self.dirtied.resize(post.capacity, false);
+        ensure!(accepted_below || post.capacity == want_cap, "C05|C16", "reopen-capacity", "{what} capsel {capsel}: capacity() {} expected {want_cap} (file len {file_len} -> {len_now}, offset {off})", post.capacity);
+        if self.dirtied.len() < post.capacity.min(DIRTIED_MAX) {
+            self.dirtied.resize(post.capacity.min(DIRTIED_MAX), false);
         }
         if mode == 1 {
             let mut sv = self.saved();
